@@ -128,10 +128,17 @@ def reorient(rng, am, box):
 
 def gen_box(rng, am):
     """(Box, family) with exactly representable vectors for most families; one cell in six of the standard
-    families is turned into a general orientation."""
+    families is turned into a general orientation; one in five has its origin on / next to a lattice plane."""
+    np = _np()
     box, fam = _gen_box(rng, am)
     if fam not in ('general', 'lefthanded') and rng.random() < 1 / 6:
-        return reorient(rng, am, box), fam + '-reoriented'
+        box, fam = reorient(rng, am, box), fam + '-reoriented'
+    if rng.random() < 0.2:
+        # box origin on a lattice plane or a hair (rounding noise .. 5e-5 of a cell) off it, on either side: where the
+        # whole-lattice translation of rotate (rint / floor of origin . inv(vects)) is decided
+        n = np.array([rng.randint(-2, 2) + rng.choice([0.0, 0.0, 1e-13, -1e-13, 1e-9, -1e-9, 1e-6, -1e-6, 5e-5, -5e-5, 0.5])
+                      for _ in range(3)])
+        box = am.Box(vects=box.vects, origin=n @ box.vects)
     return box, fam
 
 
@@ -371,6 +378,20 @@ def gen_case_U(rng, am, it, maxdet):
                 break
         return sysm, fam, spos, U, _det3(U)
     U, d = gen_U(rng, maxdet=maxdet)
+    if it % 5 == 2:
+        # cooperating: the box origin a hair below a lattice plane (so the lattice translation of rotate is decided by
+        # 1e-13 .. 5e-5 of a cell) together with atoms on / a hair below the far face of the cell along the same axis
+        j = rng.randrange(3)
+        ex = []
+        for dl in (Fraction(0), rng.choice([Fraction(5, 10 ** 8), Fraction(3, 10 ** 6), Fraction(5, 10 ** 5)])):
+            sp = [Fraction(rng.randint(0, 7), 8) for _ in range(3)]
+            sp[j] = 1 - dl
+            ex.append(tuple(sp))
+        sysm, fam, spos = gen_system(rng, am, extra=ex, far=True)
+        n = [float(rng.randint(-2, 2)) for _ in range(3)]
+        n[j] -= rng.choice([1e-13, 1e-9, 1e-6, 5e-5])
+        sysm.box_set(vects=sysm.box.vects, origin=_np().array(n) @ sysm.box.vects, scale=True)
+        return sysm, fam + '+origin-below-plane', spos, U, d
     extra = near_face_atoms(rng, U) if it % 3 == 0 else []
     sysm, fam, spos = gen_system(rng, am, extra=extra, far=(it % 4 == 1))
     return sysm, fam, spos, U, d
